@@ -331,6 +331,20 @@ fn hash_checks(g: &mut Gen, out: &mut Out, n_tx: usize, n_blk: usize) {
             if v2.data().transactions().as_slice() != block.transactions().as_slice() || v2.data().uncles().as_slice() != block.uncles().as_slice() {
                 bad.push("into_view changed the body".into());
             }
+            // ResetBlock::reset_header (BlockTemplate -> packed::Block, the bytes a miner hashes) must write
+            // the same commitments without the help of a later into_view()
+            {
+                let rb = block.clone().reset_header();
+                let raw = rb.header().raw();
+                if h32(&raw.transactions_root()) != want_root { bad.push("reset_header: transactions_root".into()); }
+                if h32(&raw.proposals_hash()) != want_prop { bad.push("reset_header: proposals_hash".into()); }
+                if h32(&raw.extra_hash()) != want_extra { bad.push("reset_header: extra_hash".into()); }
+                if rb.as_slice() != v2.data().as_slice() { bad.push("reset_header and into_view produce different blocks".into()); }
+                let txh_p: Vec<packed::Byte32> = txh.iter().map(|h| h.pack()).collect();
+                let wth_p: Vec<packed::Byte32> = wth.iter().map(|h| h.pack()).collect();
+                let rb2 = block.clone().reset_header_with_hashes(&txh_p, &wth_p);
+                if rb2.as_slice() != rb.as_slice() { bad.push("reset_header_with_hashes(tx hashes, witness hashes) differs from reset_header".into()); }
+            }
             // a view reassembled from its parts, as the store does (new_unchecked / new_unchecked_with_extension)
             {
                 let parts = block.clone().into_view_without_reset_header();
